@@ -343,6 +343,13 @@ def stale_entries(ip, st, tid, keep=()):
     for oid, v in list(st.store.items()):
         if oid in keep:
             continue
+        if oid[0] == "C" and isinstance(v, tuple) and v and v[0] == "cursor" and v[1].get("tid") == tid and v[1].get("res") is None \
+                and not v[1].get("stale"):
+            # a handle read off a link before this removal and not yet looked at: it may designate the bucket that was just vacated
+            c2 = dict(v[1])
+            c2["stale"] = True
+            st.store[oid] = ("cursor", c2)
+            continue
         if isinstance(v, tuple) and v and v[0] == "struct" and v[1] == ip.r.entry and v[2].get("#tid") == tid and oid[0] == "E":
             f = dict(v[2])
             f["#tid"] = ("stale", tid)
@@ -840,8 +847,16 @@ def m_from_residual(ip, fr, c, t, args, st):
 def m_checked_add(ip, fr, c, t, args, st):
     a, b = args
     if is_int(a) and is_int(b):
+        UM = Lin.sym("UM")
         s_none = st.fork()
-        return [(option("Some", vint(a[1] + b[1])), st), (option("None"), s_none)]
+        st.num.add(le(a[1] + b[1], UM))             # Some(a + b) iff the sum is representable
+        s_none.num.add(gt(a[1] + b[1], UM))
+        outs = []
+        if st.num.feasible():
+            outs.append((option("Some", vint(a[1] + b[1])), st))
+        if s_none.num.feasible():
+            outs.append((option("None"), s_none))
+        return outs
     return [(("unk", next(ip.ctr), "checked_add"), st)]
 
 
@@ -881,7 +896,18 @@ def m_saturating_sub(ip, fr, c, t, args, st):
 def m_saturating_add(ip, fr, c, t, args, st):
     a, b = args
     if is_int(a) and is_int(b):
-        return [(vint(a[1] + b[1]), st)]
+        UM = Lin.sym("UM")
+        wrapping = norm(c.resolved or c.nominal).endswith("wrapping_add")
+        s2 = st.fork()
+        st.num.add(le(a[1] + b[1], UM))
+        s2.num.add(gt(a[1] + b[1], UM))
+        outs = []
+        if st.num.feasible():
+            outs.append((vint(a[1] + b[1]), st))
+        if s2.num.feasible():
+            # not representable: the result is usize::MAX (saturating) resp. the sum modulo 2^bits (wrapping) -- not the sum
+            outs.append((vint(a[1] + b[1] - UM - 1) if wrapping else vint(UM), s2))
+        return outs
     return [(ip.fresh_int(st, "satadd"), st)]
 
 
